@@ -1586,6 +1586,15 @@ class Comparator(BinaryOperator):
                                                        operator.contains: not_contains,
                                                        not_contains: operator.contains}
 
+    @lru_cache(maxsize=None)
+    def _required_variables_from_child_(self, child: Optional[SymbolicExpression] = None, when_true: bool = True):
+        required_vars = super()._required_variables_from_child_(child, when_true)
+        # the outcome of the comparison depends on both operands: rows of one operand (e.g. the solutions of a nested query) that
+        # are compared with different values of the other operand are different rows.
+        required_vars.update(self.left._unique_variables_)
+        required_vars.update(self.right._unique_variables_)
+        return required_vars
+
     @property
     def _invert_(self):
         return self._invert__
